@@ -61,7 +61,8 @@ def gen_schedules(wd, name, c, init="MCInit", simulate=None, depth=None, timeout
     return sch, r
 
 
-def write_stimuli(path, schedules, c, storage="mem", valclass="ascii", flush=2, extra_steps=None):
+def write_stimuli(path, schedules, c, storage="mem", valclass="ascii", flush=2, extra_steps=None,
+                  header=None):
     with open(path, "w") as f:
         for i, h in enumerate(schedules):
             steps = list(h)
@@ -70,6 +71,7 @@ def write_stimuli(path, schedules, c, storage="mem", valclass="ascii", flush=2, 
             b = {"id": i, "replicas": sorted(c["Replicas"]), "avoid": sorted(c["AvoidSet"]),
                  "big": sorted(c["BigVals"]), "storage": storage, "valclass": valclass,
                  "tasks": sorted(c["Tasks"]), "flush": flush, "steps": steps}
+            b.update(header or {})
             f.write(json.dumps(b) + "\n")
 
 
@@ -94,7 +96,7 @@ def classify_known(pid, lines, rej):
 
 
 def conform(v, wd, name, c, schedules, storage="mem", valclass="ascii", invs=INVS,
-            max_failures=3, extra_steps=None, flush=2, sqlite_dir=None):
+            max_failures=3, extra_steps=None, flush=2, sqlite_dir=None, header=None):
     """Replay schedules on the real code and validate the trace; account the result in v."""
     if not schedules:
         v.tool_errors.append(f"{name}: TLC produced no schedules")
@@ -102,7 +104,7 @@ def conform(v, wd, name, c, schedules, storage="mem", valclass="ascii", invs=INV
     stim = os.path.join(wd, name + ".stim.ndjson")
     trace = os.path.join(wd, name + ".trace.ndjson")
     write_stimuli(stim, schedules, c, storage=storage, valclass=valclass, flush=flush,
-                  extra_steps=extra_steps)
+                  extra_steps=extra_steps, header=header)
     args = ["sync-replay", "--in", stim, "--out", trace]
     if storage == "sqlite":
         d = os.path.join(wd, name + ".sqlite")
